@@ -65,6 +65,14 @@ pub enum Op {
     R { m: usize },
     /// Query free space.
     F,
+    /// Acquire a write window and keep holding it.
+    AW,
+    /// Write `k` samples into the held write window, commit `n` with tags.
+    CW { k: usize, n: usize, pat: TagPat },
+    /// Acquire a read window, verify it, and keep holding it.
+    AR,
+    /// Verify the held read window again, then consume `m` through it.
+    CR { m: usize },
 }
 
 impl Op {
@@ -73,6 +81,10 @@ impl Op {
             Op::W { k, n, pat } => json!({"op":"W","write":k,"commit":n,"tags":format!("{pat:?}")}),
             Op::R { m } => json!({"op":"R","consume":m}),
             Op::F => json!({"op":"F"}),
+            Op::AW => json!({"op":"AW"}),
+            Op::CW { k, n, pat } => json!({"op":"CW","write":k,"commit":n,"tags":format!("{pat:?}")}),
+            Op::AR => json!({"op":"AR"}),
+            Op::CR { m } => json!({"op":"CR","consume":m}),
         }
     }
     pub fn from_json(v: &Value) -> Op {
@@ -88,6 +100,19 @@ impl Op {
             "R" => Op::R {
                 m: v["consume"].as_u64().unwrap() as usize,
             },
+            "CW" => Op::CW {
+                k: v["write"].as_u64().unwrap() as usize,
+                n: v["commit"].as_u64().unwrap() as usize,
+                pat: *TagPat::ALL
+                    .iter()
+                    .find(|p| format!("{p:?}") == v["tags"].as_str().unwrap())
+                    .unwrap(),
+            },
+            "CR" => Op::CR {
+                m: v["consume"].as_u64().unwrap() as usize,
+            },
+            "AW" => Op::AW,
+            "AR" => Op::AR,
             _ => Op::F,
         }
     }
@@ -115,6 +140,9 @@ struct Key {
     impl_tags: Vec<(usize, Vec<MTag>)>,
     model_tags: Vec<Vec<MTag>>,
     refused: bool,
+    /// Length of the held write / read window, if any.
+    held_w: Option<usize>,
+    held_r: Option<usize>,
 }
 
 struct Sys<T: Elem> {
@@ -123,6 +151,9 @@ struct Sys<T: Elem> {
     m: Model,
     base: Option<usize>,
     refused: bool,
+    held_w: Option<rustradio::circular_buffer::BufferWriter<T>>,
+    /// Held read window, its tags, and the serial of its first sample.
+    held_r: Option<(rustradio::circular_buffer::BufferReader<T>, Vec<(usize, MTag)>, u64)>,
 }
 
 fn mtag(t: &Tag) -> MTag {
@@ -158,6 +189,8 @@ impl<T: Elem> Sys<T> {
             },
             base: None,
             refused: false,
+            held_w: None,
+            held_r: None,
         })
     }
 
@@ -174,6 +207,8 @@ impl<T: Elem> Sys<T> {
                 .collect(),
             model_tags: self.m.q.iter().map(|(_, t)| t.clone()).collect(),
             refused: self.refused,
+            held_w: self.held_w.as_ref().map(|w| w.len()),
+            held_r: self.held_r.as_ref().map(|r| r.0.len()),
         }
     }
 
@@ -181,6 +216,26 @@ impl<T: Elem> Sys<T> {
     fn check_state(&mut self) -> Result<(), Fail> {
         let cap = self.m.cap;
         let used = self.m.q.len();
+        if self.held_w.is_some() || self.held_r.is_some() {
+            // Windows are held: a stream allows only so many at once. Check
+            // the bookkeeping; contents are checked when the held window is
+            // used, and in full once nothing is held.
+            if self.w.free() != cap - used {
+                return fail("free", format!("free() = {}, model {}", self.w.free(), cap - used));
+            }
+            let d = self.r.verif_dump();
+            if d.used != used || (d.rpos + d.used) % cap != d.wpos % cap || d.rpos >= cap {
+                return fail(
+                    "bookkeeping",
+                    format!("rpos {} wpos {} used {} model used {used}", d.rpos, d.wpos, d.used),
+                );
+            }
+            let ov = verif::take_overlaps();
+            if !ov.is_empty() {
+                return fail("window-overlap", format!("{:?}", ov[0]));
+            }
+            return Ok(());
+        }
         // Both windows live at once: one reader, one writer is the contract.
         let (rb, rtags) = match self.r.read_buf() {
             Ok(x) => x,
@@ -302,13 +357,88 @@ impl<T: Elem> Sys<T> {
                     return fail("free", format!("free() = {f}, model {}", cap - self.m.q.len()));
                 }
             }
-            Op::W { k, n, pat } => {
-                let mut wb = match self.w.write_buf() {
+            Op::AW => {
+                let wb = match self.w.write_buf() {
                     Ok(x) => x,
                     Err(e) => return fail("window", format!("write_buf failed: {e}")),
                 };
                 let room = cap - self.m.q.len();
                 if wb.len() != room {
+                    return fail(
+                        "write-len",
+                        format!("write window has {} slots, model has {room}", wb.len()),
+                    );
+                }
+                self.held_w = Some(wb);
+            }
+            Op::AR => {
+                let (rb, tags) = match self.r.read_buf() {
+                    Ok(x) => x,
+                    Err(e) => return fail("window", format!("read_buf failed: {e}")),
+                };
+                if rb.len() != self.m.q.len() {
+                    return fail(
+                        "read-len",
+                        format!("read window has {} samples, model has {}", rb.len(), self.m.q.len()),
+                    );
+                }
+                let first = self.m.q.front().map(|x| x.0).unwrap_or(self.m.next);
+                let t: Vec<(usize, MTag)> = tags.iter().map(|t| (t.pos(), mtag(t))).collect();
+                self.held_r = Some((rb, t, first));
+            }
+            Op::CR { m } => {
+                let (rb, tags, first) = self.held_r.take().expect("CR without held window");
+                // The window is a snapshot: what it showed when acquired is
+                // what it must still show, whatever was committed since.
+                for (i, got) in rb.slice().iter().enumerate() {
+                    let want = T::from_serial((first + i as u64) % T::modulus());
+                    if *got != want {
+                        return fail(
+                            "content",
+                            format!("held read window sample {i}: got {got:?}, want {want:?}"),
+                        );
+                    }
+                }
+                let mut want_tags: Vec<(usize, MTag)> = Vec::new();
+                for (i, (_, ts)) in self.m.q.iter().enumerate().take(rb.len()) {
+                    for t in ts {
+                        want_tags.push((i, t.clone()));
+                    }
+                }
+                if tags != want_tags {
+                    return fail("tags", format!("held read window tags: got {tags:?}, want {want_tags:?}"));
+                }
+                let have = self.m.q.len();
+                if m > have {
+                    let r = catch(move || rb.consume(m));
+                    if r.is_ok() {
+                        return fail(
+                            "over-consume-accepted",
+                            format!("consume of {m} accepted with {have} buffered"),
+                        );
+                    }
+                    self.refused = true;
+                    return Ok(());
+                }
+                if let Err(e) = catch(move || rb.consume(m)) {
+                    return fail("consume-panic", format!("consume of {m} (have {have}) panicked: {e}"));
+                }
+                for _ in 0..m {
+                    self.m.q.pop_front();
+                }
+            }
+            Op::W { k, n, pat } | Op::CW { k, n, pat } => {
+                let held = matches!(op, Op::CW { .. });
+                let mut wb = if held {
+                    self.held_w.take().expect("CW without held window")
+                } else {
+                    match self.w.write_buf() {
+                        Ok(x) => x,
+                        Err(e) => return fail("window", format!("write_buf failed: {e}")),
+                    }
+                };
+                let room = cap - self.m.q.len();
+                if !held && wb.len() != room {
                     return fail(
                         "write-len",
                         format!("write window has {} slots, model has {room}", wb.len()),
@@ -384,6 +514,14 @@ impl<T: Elem> Sys<T> {
     }
 }
 
+impl<T: Elem> Drop for Sys<T> {
+    fn drop(&mut self) {
+        // Windows before streams, and never panic here.
+        self.held_w = None;
+        self.held_r = None;
+    }
+}
+
 /// Replay a history on a fresh stream. Ok(key) or the failing step.
 fn replay<T: Elem>(size: usize, hist: &[Op]) -> Result<Key, (usize, Fail)> {
     verif::take_overlaps();
@@ -430,27 +568,47 @@ fn amounts(limit: usize, wrap_dist: usize, cap: usize) -> Vec<usize> {
 fn successors(key: &Key, cap: usize, pats: &[TagPat]) -> Vec<Op> {
     let mut ops = Vec::new();
     let free = cap - key.used;
-    for n in amounts(free, cap - key.wpos, cap) {
-        let mut ks = vec![n.min(free)];
-        if n < free {
+    // Producer side. With a held window only that window can be committed
+    // (single producer), and only up to its own length.
+    let wlimit = key.held_w.unwrap_or(free);
+    for n in amounts(wlimit, cap - key.wpos, cap) {
+        if n > wlimit && (key.held_w.is_some() && free > wlimit) {
+            // More than the held window but within space freed since: outside
+            // the alphabet (caller contract).
+            continue;
+        }
+        let mut ks = vec![n.min(wlimit)];
+        if n < wlimit {
             ks.push(n + 1);
         }
         for k in ks {
-            if n == 0 || n > free {
-                ops.push(Op::W { k, n, pat: TagPat::None });
+            let mk = |k, n, pat| if key.held_w.is_some() { Op::CW { k, n, pat } } else { Op::W { k, n, pat } };
+            if n == 0 || n > wlimit {
+                ops.push(mk(k, n, TagPat::None));
             } else {
                 for p in pats {
                     // Skip patterns that coincide for n == 1.
                     if n == 1 && matches!(p, TagPat::Middle | TagPat::FirstLast) {
                         continue;
                     }
-                    ops.push(Op::W { k, n, pat: *p });
+                    ops.push(mk(k, n, *p));
                 }
             }
         }
     }
-    for m in amounts(key.used, cap - key.rpos, cap) {
-        ops.push(Op::R { m });
+    if key.held_w.is_none() {
+        ops.push(Op::AW);
+    }
+    // Consumer side.
+    let rlimit = key.held_r.unwrap_or(key.used);
+    for m in amounts(rlimit, cap - key.rpos, cap) {
+        if m > rlimit && key.held_r.is_some() && key.used > rlimit {
+            continue;
+        }
+        ops.push(if key.held_r.is_some() { Op::CR { m } } else { Op::R { m } });
+    }
+    if key.held_r.is_none() {
+        ops.push(Op::AR);
     }
     ops.push(Op::F);
     ops
@@ -498,6 +656,10 @@ fn shape(hist: &[Op], step: usize, _cap: usize) -> String {
         Some(Op::W { n, .. }) => format!("commit{}", if *n == 0 { "0" } else { "N" }),
         Some(Op::R { m }) => format!("consume{}", if *m == 0 { "0" } else { "N" }),
         Some(Op::F) => "free".into(),
+        Some(Op::AW) => "acquire-write".into(),
+        Some(Op::AR) => "acquire-read".into(),
+        Some(Op::CW { n, .. }) => format!("held-commit{}", if *n == 0 { "0" } else { "N" }),
+        Some(Op::CR { m }) => format!("held-consume{}", if *m == 0 { "0" } else { "N" }),
         None => "init".into(),
     }
 }
@@ -771,8 +933,8 @@ pub fn run(prop: &'static str, tier: &str, shard: Option<&str>) -> Report {
     if want("closure-4") {
         closure::<Big1024>(&mut rep, &mk(PAGE, &pats)); // cap 4
     }
-    if want("closure-6") {
-        closure::<Big2048>(&mut rep, &mk(3 * PAGE, if tagged && !thorough { &small } else { &pats })); // cap 6
+    if want("closure-6") && (!tagged || thorough) {
+        closure::<Big2048>(&mut rep, &mk(3 * PAGE, &small)); // cap 6
     }
     if want("closure-12") && (!tagged || thorough) {
         closure::<Big1024>(&mut rep, &mk(3 * PAGE, &small)); // cap 12
